@@ -99,8 +99,17 @@ def run(ctx):
                 fe = os.path.join(T.root, e)
                 if os.path.islink(fe) and os.path.isdir(fe) and not cyc:
                     pats += [e + '/../*', e + '/..', e + '/./*']
+            # every top-level entry written as a plain name (the walker's shortcut for one literal segment), and every
+            # non-directory followed by a separator or by more segments (nothing exists below a file)
+            tops = [e for e in ents if '/' not in e][:8]
+            pats += tops + [e + '/' for e in tops] + ['{%s,%s}' % (tops[0], tops[-1]), '|'.join(tops[:3])] if tops else []
+            for e in ents:
+                fe = os.path.join(T.root, e)
+                if not os.path.isdir(fe) and not e.startswith('.') and len([x for x in pats if isinstance(x, str) and x.startswith(e + '/')]) == 0:
+                    pats += [e + '/', e + '//', e + '/**', e + '/..', e + '/.', e + '/*', e + '/../*']
             for pat in pats:
-                for fv in (Gm.GLOBSTAR, Gm.GLOBSTAR | Gm.MARK | Gm.BRACE | Gm.SPLIT, Gm.GLOBSTAR | Gm.NODIR | Gm.NEGATE | Gm.DOTGLOB, Gm.MATCHBASE | Gm.SCANDOTDIR):
+                for fv in (Gm.GLOBSTAR, Gm.GLOBSTAR | Gm.MARK | Gm.BRACE | Gm.SPLIT, Gm.GLOBSTAR | Gm.NODIR | Gm.NEGATE | Gm.DOTGLOB, Gm.MATCHBASE | Gm.SCANDOTDIR,
+                           Gm.NODIR, Gm.NODIR | Gm.MARK | Gm.BRACE | Gm.SPLIT):
                     n += 1
                     old = os.getcwd()
                     try:
@@ -119,6 +128,7 @@ def run(ctx):
                         e_ = Gm.glob(pat, flags=fv)
                     finally:
                         os.chdir(old)
+                    check_results(T, pat, fv, a, 'glob')
                     if not (a == b == c_ == c2 == d_ == e_):
                         which = [k for k, v in (('bytes root_dir', b), ('PathLike', c_), ('pathlib.Path', c2), ('dir_fd', d_), ('chdir', e_)) if v != a]
                         ctx.counterexample('glob(%r, %s) depends on how the root is given (%s differ from root_dir=str): %r vs %r' % (
